@@ -46,6 +46,7 @@ type Val struct {
 type State struct {
 	heap    map[string]string
 	base    string
+	rbase   string // epoch of arrays holding repository-declared types (survives calls into external libraries)
 	alloc   string
 	trace   string
 	ntrace  string
@@ -54,7 +55,7 @@ type State struct {
 }
 
 func (s *State) clone() *State {
-	n := &State{heap: make(map[string]string, len(s.heap)), base: s.base, alloc: s.alloc, trace: s.trace, ntrace: s.ntrace,
+	n := &State{heap: make(map[string]string, len(s.heap)), base: s.base, rbase: s.rbase, alloc: s.alloc, trace: s.trace, ntrace: s.ntrace,
 		defers: make(map[*ssa.Defer]string, len(s.defers)), visited: make(map[*ssa.Range]string, len(s.visited))}
 	for k, v := range s.heap {
 		n.heap[k] = v
@@ -143,9 +144,13 @@ func (t *Trans) get(st *State, name, sort string) string {
 	if _, ok := t.arrSort[name]; !ok {
 		t.arrSort[name] = sort
 	}
-	c := t.B.declConst(t.arrayEntryName(name, st.base), sort)
+	base := st.base
+	if st.rbase != st.base && t.P.mentionsRepoType(name) {
+		base = st.rbase
+	}
+	c := t.B.declConst(t.arrayEntryName(name, base), sort)
 	st.heap[name] = c
-	if a, ok := t.baseAlloc[st.base]; ok {
+	if a, ok := t.baseAlloc[base]; ok {
 		t.noteVersion(c, a)
 	}
 	return c
@@ -161,7 +166,7 @@ func (t *Trans) set(st *State, name, sort, term string) {
 }
 
 func (t *Trans) newState(base string) *State {
-	st := &State{heap: map[string]string{}, base: base, defers: map[*ssa.Defer]string{}, visited: map[*ssa.Range]string{}}
+	st := &State{heap: map[string]string{}, base: base, rbase: base, defers: map[*ssa.Defer]string{}, visited: map[*ssa.Range]string{}}
 	st.alloc = t.B.declConst("alloc#"+base, "Int")
 	if t.baseAlloc == nil {
 		t.baseAlloc = map[string]string{}
@@ -174,17 +179,25 @@ func (t *Trans) newState(base string) *State {
 
 // havocAll forgets everything about the heap (unknown callee).
 func (t *Trans) havocAll(st *State, cur string, keepTrace bool) string {
+	return t.havocHeap(st, cur, keepTrace, false)
+}
+
+// havocHeap: keepRepo keeps every array that holds repository-declared types (call into an external library).
+func (t *Trans) havocHeap(st *State, cur string, keepTrace bool, keepRepo bool) string {
 	base := t.B.fresh("h")
 	oldAlloc, oldTrace, oldN := st.alloc, st.trace, st.ntrace
 	// keep private locals and defers
 	nh := map[string]string{}
 	for k, v := range st.heap {
-		if strings.HasPrefix(k, "L:") {
+		if strings.HasPrefix(k, "L:") || (keepRepo && t.P.mentionsRepoType(k)) {
 			nh[k] = v
 		}
 	}
 	st.heap = nh
 	st.base = base
+	if !keepRepo {
+		st.rbase = base
+	}
 	st.alloc = t.B.declConst("alloc#"+base, "Int")
 	if t.baseAlloc == nil {
 		t.baseAlloc = map[string]string{}
@@ -292,6 +305,11 @@ type edge struct {
 	from *ssa.BasicBlock
 }
 
+type callRec struct {
+	val  *Val
+	cond string
+}
+
 type retInfo struct {
 	cond string
 	st   *State
@@ -327,6 +345,8 @@ type frame struct {
 	site   ssa.CallInstruction
 	lets   map[string]cval
 	loopEff map[*loopInfo]*effects
+	loopPre map[*loopInfo]*State
+	callLog map[string][]callRec
 	prefix string // obligation label prefix of an inlined activation
 	silent bool   // no obligations (evaluation of contract expressions)
 }
@@ -504,7 +524,7 @@ func (f *frame) mergeEdges(es []edge) (string, *State) {
 	}
 	sameBase := true
 	for _, e := range es[1:] {
-		if e.st.base != es[0].st.base {
+		if e.st.base != es[0].st.base || e.st.rbase != es[0].st.rbase {
 			sameBase = false
 		}
 	}
@@ -517,6 +537,7 @@ func (f *frame) mergeEdges(es []edge) (string, *State) {
 	}
 	if !sameBase {
 		st.base = t.B.fresh("m")
+		st.rbase = st.base
 		for k := range t.arrSort {
 			names[k] = true
 		}
@@ -765,10 +786,31 @@ func (f *frame) allocRef(st *State, name string) string {
 }
 
 // zeroStruct initialises all fields of a freshly allocated struct.
+// runtimeInternalField: bookkeeping fields of generated protobuf messages and sync primitives, never read by repository code.
+func runtimeInternalField(fld *types.Var) bool {
+	t := fld.Type()
+	if p, ok := t.(*types.Pointer); ok {
+		t = p.Elem()
+	}
+	if n, ok := t.(*types.Named); ok && n.Obj().Pkg() != nil {
+		path := n.Obj().Pkg().Path()
+		if strings.HasPrefix(path, "google.golang.org/protobuf/") && n.Obj().Pkg().Name() != "anypb" {
+			return true
+		}
+		if path == "sync" || path == "sync/atomic" {
+			return true
+		}
+	}
+	return false
+}
+
 func (f *frame) zeroStruct(st *State, ref string, T types.Type) {
 	s := T.Underlying().(*types.Struct)
 	for i := 0; i < s.NumFields(); i++ {
 		fld := s.Field(i)
+		if runtimeInternalField(fld) {
+			continue
+		}
 		if _, isS := fld.Type().Underlying().(*types.Struct); isS {
 			// sub-objects of sync primitives etc. are not initialised (never read)
 			if named, ok := fld.Type().(*types.Named); ok && named.Obj().Pkg() != nil && named.Obj().Pkg().Path() == "sync" {
